@@ -3,12 +3,17 @@
 package main
 
 import (
+	"bufio"
+	"bytes"
 	"context"
+	"encoding/json"
 	"errors"
 	"fmt"
 	"math"
 	"os"
+	osexec "os/exec"
 	"path/filepath"
+	"runtime"
 	"sort"
 	"strconv"
 	"strings"
@@ -38,6 +43,8 @@ func main() {
 		extract(os.Args[2], os.Args[3])
 	case "corr":
 		corr.Main(spec(), os.Args[2:])
+	case "runscript":
+		runScriptChild()
 	default:
 		os.Exit(2)
 	}
@@ -148,6 +155,33 @@ func extract(repo, leanDir string) {
 	}
 	qFifo := fifo(pq, "AddReq", "ErrReqQFull", "reqMaxNum") && fifo(aq, "Add", "ErrFull", "size")
 
+	// every accepted call owns a freshly allocated context object; the entry points only add it and wait on it
+	lit := func(f *gofacts.File, fn, want string) bool { return gofacts.Norm(f.Body("", fn)) == gofacts.Norm(want) }
+	meth := func(f *gofacts.File, recv, fn, want string) bool {
+		return gofacts.Norm(f.Body(recv, fn)) == gofacts.Norm(want)
+	}
+	asyncCtx := "{ return &AsyncCtx{ ctx: ctx, call: call, param: param, rChan: make(chan AsyncR, 1), } }"
+	fresh := all(
+		lit(lnc, "newAsyncCtx", asyncCtx), lit(mlc, "newAsyncCtx", asyncCtx),
+		lit(rc, "newCallCtx", `{ var fnType, valid = validateFn(fn) if !valid { panic("new async call in case function is nil") } return &callCtxT{ ctx: ctx, functionType: fnType, functionValue: reflect.ValueOf(fn), arg: arg, wait: make(chan struct{}), } }`),
+		lit(rc, "newDelegateCtx", "{ return &delegateCtxT{ ctx: ctx, delegate: delegate, wait: make(chan struct{}), } }"),
+		lit(rc, "newProcCtx", "{ return &procCtxT{ ctx: ctx, proc: proc, wait: make(chan struct{}), } }"),
+		lit(pc, "newProcChanCtx", "{ return &procChanCtxT{ ctx: ctx, proc: proc, wait: make(chan struct{}), } }"),
+		meth(ln, "Line", "AsyncCall", "{ var proc, err = c.addCallCtx(ctx, callCtx) if err != nil { return nil, err } return proc.R() }"),
+		meth(ml, "MultiLine", "AsyncCall", "{ var proc, err = c.addCallCtx(ctx, callCtx) if err != nil { return nil, err } return proc.R() }"),
+		meth(ln, "Line", "addCallCtx", "{ var proc = newAsyncCtx(ctx, callCtx.Call, callCtx.Param) var err = pipe.ConvertQueueErr(c.q.AddReq(proc)) return proc, err }"),
+		meth(ml, "MultiLine", "addCallCtx", "{ var slotIndex = pipe.NormalizeSlotIndex(callCtx.hashIndex, c.slotSize) var proc = newAsyncCtx(ctx, callCtx.call, callCtx.param) var err = pipe.ConvertQueueErr(c.qs[slotIndex].AddReq(proc)) return proc, err }"),
+		meth(rn, "RunnerQ", "AsyncCall", "{ var proc, err = c.addCallCtx(ctx, fn, arg) if err != nil { return nil, err } return proc.r() }"),
+		meth(rn, "RunnerQ", "AsyncDelegate", "{ var procCtx, err = c.addDelegateCtx(ctx, delegate) if err != nil { return nil, err } return procCtx.r() }"),
+		meth(rn, "RunnerQ", "AsyncProc", "{ var procCtx, err = c.addProcCtx(ctx, proc) if err != nil { return nil, err } return procCtx.r() }"),
+		meth(rn, "RunnerQ", "addCallCtx", "{ var callCtx = newCallCtx(ctx, fn, arg) var err = c.q.Add(callCtx) return callCtx, err }"),
+		meth(rn, "RunnerQ", "addDelegateCtx", "{ var delegateCtx = newDelegateCtx(ctx, delegate) var err = c.q.Add(delegateCtx) return delegateCtx, err }"),
+		meth(rn, "RunnerQ", "addProcCtx", "{ var procCtx = newProcCtx(ctx, proc) var err = c.q.Add(procCtx) return procCtx, err }"),
+		meth(pc, "ProcChan", "AsyncProc", "{ var procCtx, err = c.addCallCtx(ctx, proc) if err != nil { return nil, err } return procCtx.r(c.stopChan) }"),
+		gofacts.Has(pc.Body("ProcChan", "addCallCtx"), "{ var procCtx = newProcChanCtx(ctx, proc) select {"),
+		lit(lnc, "NewCallCtx", "{ return &CallCtx{ Call: call, Param: param, } }"),
+		lit(mlc, "NewCallCtx", "{ return &CallCtx{ call: call, param: param, hashIndex: hashIndex, } }"))
+
 	// ProcChan accept path
 	accept := "unknown"
 	padd := pc.Body("ProcChan", "addCallCtx")
@@ -161,7 +195,7 @@ func extract(repo, leanDir string) {
 	}
 
 	facts := []bool{linePop, mlinePop, runnerPop, lineOne, mlinePer, runnerOne, pchanOne, lineBuf, mlineBuf, runnerWait, pchanWait,
-		skips, stopOnce, laneIsSlot, qFifo}
+		skips, stopOnce, laneIsSlot, qFifo, fresh}
 	var fs []string
 	for _, b := range facts {
 		fs = append(fs, gofacts.LeanBool(b))
@@ -206,9 +240,11 @@ type call struct {
 	running   bool
 	fin       *finVal // what the callee returned
 	seq       int     // order of submission among calls accepted (for order monitor)
+	twice     bool    // the callee was entered a second time (it is parked for good)
 }
 
 type exec struct {
+	variant int // RunnerQ context kind: -1 alternate by call id, 0 reflective call, 1 delegate, 2 proc
 	kind    string
 	lanes   int
 	capQ    int
@@ -226,6 +262,7 @@ type exec struct {
 	hits    map[string]string
 	laneRun map[int]int // lane -> id of the call running there (monitor)
 	laneSeq map[int]int // lane -> id of the last call started there
+	hold    chan struct{}
 }
 
 var currentScript []string
@@ -256,8 +293,14 @@ func kindName(k string) string {
 	return "ProcChan"
 }
 
+var runnerVariants = map[string]int{"runner": -1, "runner-call": 0, "runner-delegate": 1, "runner-proc": 2}
+
 func newExec(kind string, lanes, capQ int) *exec {
-	e := &exec{kind: kind, lanes: lanes, capQ: capQ, s: sched.New(), laneRun: map[int]int{}, laneSeq: map[int]int{}}
+	variant := -1
+	if v, ok := runnerVariants[kind]; ok {
+		kind, variant = "runner", v
+	}
+	e := &exec{hold: make(chan struct{}), variant: variant, kind: kind, lanes: lanes, capQ: capQ, s: sched.New(), laneRun: map[int]int{}, laneSeq: map[int]int{}}
 	switch kind {
 	case "line":
 		wg := &sync.WaitGroup{}
@@ -297,6 +340,10 @@ func (e *exec) body(c *call, lane int) (interface{}, error) {
 	c.running = true
 	if c.starts > 1 {
 		e.hit("C14:"+kindName(e.kind)+":call-executed-twice", fmt.Sprintf("call %d was started %d times", c.id, c.starts))
+		c.twice = true
+		e.laneRun[lane] = c.id
+		e.mu.Unlock()
+		<-e.hold // park for good: letting the callee return a second time would double-close channels inside the library
 	}
 	if other, busy := e.laneRun[lane]; busy {
 		e.hit("C14:"+kindName(e.kind)+":calls-overlap-on-lane", fmt.Sprintf("call %d started on lane %d while call %d was still running there", c.id, lane, other))
@@ -369,7 +416,11 @@ func (e *exec) submit(id, hash int) {
 				return e.body(c, sIndex)
 			}, id)))
 		case "runner":
-			switch id % 3 {
+			v := e.variant
+			if v < 0 {
+				v = id % 3
+			}
+			switch v {
 			case 0:
 				return canon(e.rq.AsyncCall(func(ctx context.Context, a int) (interface{}, error) { return e.body(c, 0) }, ctx, id))
 			case 1:
@@ -532,7 +583,7 @@ func (e *exec) cleanup() {
 		any := false
 		e.mu.Lock()
 		for _, c := range e.calls {
-			if c.running {
+			if c.running && !c.twice {
 				any = true
 				select {
 				case c.gate <- finVal{true, 900 + c.id}:
@@ -547,6 +598,15 @@ func (e *exec) cleanup() {
 	}
 	e.drain()
 	name := kindName(e.kind)
+	for _, c := range e.calls {
+		if c.twice { // the lane is blocked by the parked second execution: everything below would be a consequence
+			for _, c := range e.calls {
+				c.cancel()
+			}
+			e.settle()
+			return
+		}
+	}
 	if !e.exited {
 		e.hit("C14:"+name+":lane-not-terminated", "after Stop and after every running call returned, the lane goroutines are still alive")
 	}
@@ -622,7 +682,8 @@ func runScript(lines []string) ([]string, map[string]string) {
 			merge()
 			n, ok1 := parseNat(w[2])
 			c, ok2 := parseNat(w[3])
-			kinds := map[string]bool{"line": true, "mline": true, "runner": true, "pchan": true}
+			kinds := map[string]bool{"line": true, "mline": true, "runner": true, "pchan": true,
+				"runner-call": true, "runner-delegate": true, "runner-proc": true}
 			if kinds[w[1]] && ok1 && ok2 && n >= 1 && n <= 1024 && c <= 1024 && (w[1] == "mline" || n == 1) {
 				e = newExec(w[1], n, c)
 				out = "ok"
@@ -658,7 +719,7 @@ func runScript(lines []string) ([]string, map[string]string) {
 			if ok1 && ok2 && (w[2] == "ok" || w[2] == "err") && id < len(e.calls) {
 				c := e.calls[id]
 				e.mu.Lock()
-				running := c.running
+				running := c.running && !c.twice
 				e.mu.Unlock()
 				if running {
 					c.gate <- finVal{w[2] == "ok", v}
@@ -690,30 +751,220 @@ func runScript(lines []string) ([]string, map[string]string) {
 	return outs, hits
 }
 
-// scripts whose outcome depends on Go's random `select` (ProcChan, a call after Stop) are executed several
-// times on the real code so that the monitors see every resolution with high probability.
-func amplify(tag string, lines []string) int {
-	n := 6
-	if tag == "replay" || tag == "corpus" || strings.HasPrefix(tag, "witness") {
-		n = 64
-	}
-	pchan, stopped := false, false
+// Scripts whose outcome depends on something the script cannot fix are executed several times on the real code so
+// that the monitors see every resolution with high probability:
+//   - Go's random `select` (ProcChan, a call submitted after Stop);
+//   - object reuse between calls (a caller gives up while its call is still queued, then more calls are submitted):
+//     whether a recycled object (sync.Pool and the like) is handed to the next call depends on the P the goroutines
+//     run on, so these scripts run with GOMAXPROCS(1), where a per-P free slot is reused almost surely.
+func amplify(tag string, lines []string) (n int, oneP bool) {
+	many := tag == "replay" || tag == "corpus" || strings.HasPrefix(tag, "witness")
+	pchan, stopped, cancelled := false, false, false
 	for _, l := range lines {
 		switch {
 		case strings.HasPrefix(l, "new "):
-			pchan, stopped = strings.HasPrefix(l, "new pchan "), false
+			pchan, stopped, cancelled = strings.HasPrefix(l, "new pchan "), false, false
 		case l == "stop":
 			stopped = true
+		case strings.HasPrefix(l, "cancel "):
+			cancelled = true
 		case strings.HasPrefix(l, "call ") && pchan && stopped:
-			return n
+			if many {
+				return 64, oneP
+			}
+			return 6, oneP
+		case strings.HasPrefix(l, "call ") && cancelled && !stopped:
+			switch {
+			case many:
+				n, oneP = 32, true
+			case strings.HasPrefix(tag, "giveup"):
+				n, oneP = 10, true
+			case strings.HasSuffix(tag, "+giveup"):
+				n, oneP = 3, true
+			}
 		}
 	}
-	return 1
+	if n == 0 {
+		n = 1
+	}
+	return n, oneP
+}
+
+type childReq struct {
+	Lines []string `json:"lines"`
+	N     int      `json:"n"`
+}
+
+// runScriptChild: `c14 runscript` — a server loop: one JSON request per input line; executes the script N times with
+// GOMAXPROCS(1) in this (child) process and streams `O <json outs>` (first execution), `H <json hit>` lines and a final
+// `E`. A panic inside a library goroutine kills only this child; the parent turns that into an observation.
+func runScriptChild() {
+	runtime.GOMAXPROCS(1)
+	in := bufio.NewScanner(os.Stdin)
+	in.Buffer(make([]byte, 1<<20), 1<<26)
+	w := bufio.NewWriter(os.Stdout)
+	for in.Scan() {
+		var req childReq
+		if err := json.Unmarshal(in.Bytes(), &req); err != nil {
+			fmt.Fprintln(os.Stderr, "harness error: runscript:", err)
+			os.Exit(2)
+		}
+		seen := map[string]bool{}
+		for i := 0; i < req.N; i++ {
+			outs, hits := runScript(req.Lines)
+			if i == 0 {
+				b, _ := json.Marshal(outs)
+				fmt.Fprintf(w, "O %s\n", b)
+			}
+			var keys []string
+			for k := range hits {
+				keys = append(keys, k)
+			}
+			sort.Strings(keys)
+			for _, k := range keys {
+				if !seen[k] {
+					seen[k] = true
+					b, _ := json.Marshal(corr.Hit{Key: k, What: hits[k]})
+					fmt.Fprintf(w, "H %s\n", b)
+				}
+			}
+			w.Flush()
+			if len(seen) > 0 && i >= 2 {
+				break
+			}
+		}
+		fmt.Fprintln(w, "E")
+		w.Flush()
+	}
+}
+
+func scriptKind(lines []string) string {
+	k := "Line"
+	for _, l := range lines {
+		if f := strings.Fields(l); len(f) >= 2 && f[0] == "new" {
+			name := f[1]
+			if strings.HasPrefix(name, "runner") {
+				name = "runner"
+			}
+			k = kindName(name)
+		}
+	}
+	return k
+}
+
+type childProc struct {
+	cmd   *osexec.Cmd
+	in    *bufio.Writer
+	out   *bufio.Scanner
+	errb  *bytes.Buffer
+	stdin interface{ Close() error }
+}
+
+var child *childProc
+
+func startChild() *childProc {
+	cmd := osexec.Command(os.Args[0], "runscript")
+	cmd.Env = append(os.Environ(), "GOMAXPROCS=1")
+	stdin, err := cmd.StdinPipe()
+	if err != nil {
+		harnessFail(err)
+	}
+	stdout, err := cmd.StdoutPipe()
+	if err != nil {
+		harnessFail(err)
+	}
+	errb := &bytes.Buffer{}
+	cmd.Stderr = errb
+	if err := cmd.Start(); err != nil {
+		harnessFail(err)
+	}
+	sc := bufio.NewScanner(stdout)
+	sc.Buffer(make([]byte, 1<<20), 1<<26)
+	return &childProc{cmd: cmd, in: bufio.NewWriter(stdin), out: sc, errb: errb, stdin: stdin}
+}
+
+func (c *childProc) stop() {
+	_ = c.stdin.Close()
+	_ = c.cmd.Process.Kill()
+	_ = c.cmd.Wait()
+}
+
+// runInChild runs the script in the child process (GOMAXPROCS 1); a crash of the child is an observation, not a harness error.
+func runInChild(lines []string, n int) corr.Result {
+	var res corr.Result
+	if child == nil {
+		child = startChild()
+	}
+	c := child
+	b, _ := json.Marshal(childReq{Lines: lines, N: n})
+	c.in.Write(b)
+	c.in.WriteByte('\n')
+	c.in.Flush()
+	ended := false
+	timer := time.AfterFunc(120*time.Second, func() { _ = c.cmd.Process.Kill() })
+	for c.out.Scan() {
+		l := c.out.Text()
+		if l == "E" {
+			ended = true
+			break
+		}
+		switch {
+		case strings.HasPrefix(l, "O "):
+			_ = json.Unmarshal([]byte(l[2:]), &res.Outs)
+		case strings.HasPrefix(l, "H "):
+			var h corr.Hit
+			if json.Unmarshal([]byte(l[2:]), &h) == nil {
+				res.Hits = append(res.Hits, h)
+			}
+		}
+	}
+	killed := !timer.Stop()
+	if !ended {
+		_ = c.stdin.Close()
+		_ = c.cmd.Wait()
+		child = nil
+		msg := c.errb.String()
+		if killed {
+			harnessFail(fmt.Errorf("child running %v did not finish within 120 s", lines))
+		}
+		if strings.Contains(msg, "harness error") || !(strings.Contains(msg, "panic:") || strings.Contains(msg, "fatal error:")) {
+			fmt.Fprintln(os.Stderr, msg)
+			harnessFail(fmt.Errorf("child failed while running %v", lines))
+		}
+		first, where := "panic", ""
+		for _, l := range strings.Split(msg, "\n") {
+			if first == "panic" && (strings.HasPrefix(l, "panic:") || strings.HasPrefix(l, "fatal error:")) {
+				first = l
+			}
+			if where == "" && strings.Contains(l, "github.com/pinealctx/neptune/syncx/pipe/") && strings.Contains(l, "(") {
+				where = strings.TrimSpace(l)
+				if i := strings.LastIndex(where, "("); i > 0 {
+					where = where[:i]
+				}
+			}
+		}
+		res.Hits = append(res.Hits, corr.Hit{Key: "C14:" + scriptKind(lines) + ":lane-goroutine-panic",
+			What: fmt.Sprintf("the process died while running the script: %s (in %s)", first, where)})
+	} else if len(res.Hits) > 0 {
+		// goroutines parked by a misbehaving run would slow every later snapshot: continue in a fresh process
+		c.stop()
+		child = nil
+	}
+	if len(res.Outs) != len(lines) {
+		res.Outs = make([]string, len(lines))
+		for i := range res.Outs {
+			res.Outs[i] = "crashed"
+		}
+	}
+	return res
 }
 
 func runCase(c corr.Case) corr.Result {
 	var res corr.Result
-	n := amplify(c.Tag, c.Lines)
+	n, oneP := amplify(c.Tag, c.Lines)
+	if oneP {
+		return runInChild(c.Lines, n)
+	}
 	seen := map[string]bool{}
 	for i := 0; i < n; i++ {
 		outs, hits := runScript(c.Lines)
@@ -754,8 +1005,8 @@ func pickHash(r *rng.R) int {
 }
 
 // genScript builds one mostly-valid script, using a light simulation only to pick useful operations.
-func genScript(r *rng.R, tier string) []string {
-	kind := r.Pick("line", "mline", "mline", "runner", "runner", "pchan", "pchan")
+func genScript(r *rng.R, tier string) (script []string, giveUp bool) {
+	kind := r.Pick("line", "mline", "mline", "runner", "runner", "runner-call", "pchan", "pchan")
 	lanes := 1
 	if kind == "mline" {
 		lanes = r.PickInt(1, 2, 2, 3, 3, 5, 7)
@@ -781,7 +1032,8 @@ func genScript(r *rng.R, tier string) []string {
 		return ls[i]
 	}
 	cancelled := map[int]bool{}
-	skipKind := kind == "runner" || kind == "pchan"
+	queuedCancel := false // a caller gave up while its call was still queued
+	skipKind := strings.HasPrefix(kind, "runner") || kind == "pchan"
 	next, stopped, postStop := 0, false, 0
 	stopAt := -1
 	if r.Chance(7, 10) {
@@ -819,6 +1071,9 @@ func genScript(r *rng.R, tier string) []string {
 			}
 			h := pickHash(r)
 			lines = append(lines, fmt.Sprintf("call %d %d", next, h))
+			if queuedCancel && !stopped {
+				giveUp = true
+			}
 			li := 0
 			if kind == "mline" {
 				li = safeSlot(h, lanes)
@@ -851,6 +1106,13 @@ func genScript(r *rng.R, tier string) []string {
 			id := r.Intn(next)
 			lines = append(lines, fmt.Sprintf("cancel %d", id))
 			cancelled[id] = true
+			for _, l := range ls {
+				for _, q := range l.q {
+					if q == id {
+						queuedCancel = true
+					}
+				}
+			}
 		default:
 			if r.Bool() {
 				lines = append(lines, fmt.Sprintf("fin %d ok %d", r.Intn(next), r.Range(0, 99))) // often not running
@@ -859,6 +1121,51 @@ func genScript(r *rng.R, tier string) []string {
 				stopped = true
 			}
 		}
+	}
+	return lines, giveUp
+}
+
+var giveupKinds = []string{"line", "mline", "runner", "runner-call", "runner-call", "runner-delegate", "runner-proc", "pchan"}
+
+// genGiveUp: the lane is busy, callers give up while their calls are still queued, more calls are submitted,
+// then the lane drains (every call that runs is finished in order).
+func genGiveUp(r *rng.R, kind string) []string {
+	capQ := r.PickInt(0, 0, 8, 16)
+	if kind == "pchan" {
+		capQ = r.PickInt(8, 16)
+	}
+	lines := []string{fmt.Sprintf("new %s 1 %d", kind, capQ)}
+	h := r.Range(0, 5)
+	next := 0
+	call := func() {
+		lines = append(lines, fmt.Sprintf("call %d %d", next, h))
+		next++
+	}
+	call() // occupies the lane
+	rounds := r.Range(1, 3)
+	for k := 0; k < rounds; k++ {
+		first := next
+		for i, m := 0, r.Range(1, 3); i < m; i++ {
+			call()
+		}
+		for id := first; id < next; id++ {
+			if id == first || r.Bool() {
+				lines = append(lines, fmt.Sprintf("cancel %d", id))
+			}
+		}
+		for i, m := 0, r.Range(1, 3); i < m; i++ {
+			call()
+		}
+	}
+	stopAt := -1
+	if r.Chance(1, 3) {
+		stopAt = r.Intn(next)
+	}
+	for id := 0; id < next; id++ {
+		if id == stopAt {
+			lines = append(lines, "stop")
+		}
+		lines = append(lines, fmt.Sprintf("fin %d %s %d", id, r.Pick("ok", "ok", "err"), r.Range(0, 99)))
 	}
 	return lines
 }
@@ -880,7 +1187,7 @@ func genKernel(r *rng.R) []string {
 }
 
 func genGarbage(r *rng.R) []string {
-	toks := []string{"new", "call", "fin", "cancel", "stop", "slot", "line", "mline", "pchan", "runner", "ok", "err", "0", "1", "-1", "x",
+	toks := []string{"new", "call", "fin", "cancel", "stop", "slot", "line", "mline", "pchan", "runner", "runner-call", "runner-x", "ok", "err", "0", "1", "-1", "x",
 		"99999999999999999999", "1e3", "+1", "", "  ", "0x10", "-9223372036854775809"}
 	lines := []string{r.Pick("new line 1 1", "new mline 2 0", "new bogus 1 1", "new line 2 0", "new pchan 1 1", "new runner 0 0")}
 	for i := 0; i < 8; i++ {
@@ -911,6 +1218,11 @@ func fixedCases() []corr.Case {
 		add("boundary", "new "+k+" 1 2", "call 0 1", "call 1 1", "call 2 1", "call 3 1", "cancel 1", "cancel 0", "fin 0 ok 10", "fin 1 ok 11", "fin 2 ok 12", "stop", "stop")
 		add("boundary", "new "+k+" 1 1", "stop", "call 0 0", "fin 0 ok 1", "cancel 0")
 	}
+	// a caller gives up while its call is queued; later calls must each run once and get their own result
+	for _, k := range []string{"line", "mline", "runner", "runner-call", "runner-delegate", "runner-proc", "pchan"} {
+		add("witness-giveup", "new "+k+" 1 8", "call 0 1", "call 1 1", "cancel 1", "call 2 1", "call 3 1", "fin 0 ok 10", "fin 1 ok 11", "fin 2 ok 12", "fin 3 err 13", "call 4 1", "fin 4 ok 14", "stop")
+		add("witness-giveup", "new "+k+" 1 8", "call 0 1", "call 1 1", "call 2 1", "cancel 2", "cancel 1", "call 3 1", "call 4 1", "cancel 3", "call 5 1", "fin 0 ok 10", "fin 1 ok 11", "fin 2 ok 12", "fin 3 ok 13", "fin 4 ok 14", "fin 5 ok 15", "stop")
+	}
 	add("boundary", "new mline 2 0", "call 0 0", "call 1 1", "call 2 2", "call 3 3", "call 4 -1", "call 5 -2", "fin 1 ok 1", "fin 0 ok 0", "stop", "fin 2 ok 2", "fin 3 ok 3", "fin 4 ok 4", "fin 5 ok 5")
 	return cs
 }
@@ -940,9 +1252,16 @@ func spec() corr.Spec {
 				return corr.Case{Tag: "kernel", Lines: genKernel(r)}
 			case i%40 == 11:
 				return corr.Case{Tag: "malformed", Lines: genGarbage(r)}
+			case i%16 == 5:
+				k := giveupKinds[(i/16)%len(giveupKinds)]
+				return corr.Case{Tag: "giveup-" + k, Lines: genGiveUp(r, k)}
 			}
-			ls := genScript(r, tier)
-			return corr.Case{Tag: "script-" + strings.Fields(ls[0])[1], Lines: ls}
+			ls, giveUp := genScript(r, tier)
+			tag := "script-" + strings.Fields(ls[0])[1]
+			if giveUp {
+				tag += "+giveup"
+			}
+			return corr.Case{Tag: tag, Lines: ls}
 		},
 		Run: runCase,
 		NonTrivial: func(c corr.Case, r corr.Result) bool {
